@@ -400,6 +400,9 @@ type Exec struct {
 	parseMemo map[string]*parseRes
 	atomicOps int
 	pools     map[*Cell][]Value
+	locks     map[*Cell]*lockState
+	timerObjs map[*Cell]*timerObj
+	gojaMsgs  map[*Cell]string
 }
 
 type inputRec struct {
